@@ -478,6 +478,45 @@ inline int listops_run()
    return(0);
 } // listops_run
 
+
+//! UNC_VERIF_DUMP: one record per call of Chunk::MoveAfter / Swap / SwapLines in <prefix>.N.lops, written before the list is
+//! touched: kind, this is null, other is null, same chunk, this is the head, other is the head, other directly in front of this,
+//! this directly in front of other, newline bits, both on one line
+inline void list_op(char kind, const Chunk *a, const Chunk *b)
+{
+   if (  !dumping()
+      || st().file_no < 0)
+   {
+      return;
+   }
+   static FILE *f   = nullptr;
+   static int  f_no = -1;
+
+   if (f_no != st().file_no)
+   {
+      if (f != nullptr)
+      {
+         fclose(f);
+      }
+      f    = open_dump("lops");
+      f_no = st().file_no;
+   }
+
+   if (f == nullptr)
+   {
+      return;
+   }
+   bool an = a->IsNullChunk();
+   bool bn = b->IsNullChunk();
+
+   fprintf(f, "%c %d %d %d %d %d %d %d %d %d\n", kind, an, bn, a == b,
+           !an && a == Chunk::GetHead(), !bn && b == Chunk::GetHead(),
+           !an && !bn && a->GetPrev() == b, !an && !bn && b->GetPrev() == a,
+           (a->IsNewline() ? 2 : 0) + (b->IsNewline() ? 1 : 0),
+           !an && !bn && a->GetFirstChunkOnLine() == b->GetFirstChunkOnLine());
+   fflush(f);
+}
+
 } // namespace verif
 
 #endif /* UNCRUSTIFY_VERIF */
